@@ -3,7 +3,7 @@
    of real objects plus a list of pairs of roots in it:
      [kind |-> "equiv", ra, rb, impl]   impl = what ra.is_structurally_equivalent(rb) returned (1/0)
      [kind |-> "clone", ra, rb]         rb was produced by cloning ra
-     [kind |-> "same",  ra, rb]         ra (before) and rb (after) must be equivalent AND be the same objects
+     [kind |-> "must",  ra, rb]         rb was obtained by printing ra and parsing the text: must be equivalent
    TLC evaluates the definition of IRIso.tla and reports every pair on which the implementation disagrees. *)
 EXTENDS IRIso, Json, IOUtils, TLC
 
@@ -15,6 +15,7 @@ PairVerdict(c, p) ==
                            IF (e = "ok") = (p.impl = 1) THEN "ok"
                            ELSE IF e = "ok" THEN "RejectsIsomorphicIR" ELSE e
     [] p.kind = "clone" -> CloneClause(c, p.ra, p.rb)
+    [] p.kind = "must" -> EquivClause(c, p.ra, p.rb)            \* C04: the re-parsed IR must be equivalent to the printed one
     [] OTHER -> "ok"
 
 CheckCase(k) == LET cs == Cases[k] IN
